@@ -542,6 +542,12 @@ def gen_c14_sm9(tier, rng):
         yield ('sm9-out-of-range-candidate', 's9_keygen sign %s,%s' % (b_, g), None)
         yield ('sm9-out-of-range-candidate', 's9_keygen enc %s,%s' % (b_, g), None)
         yield ('sm9-out-of-range-candidate', 's9_exch %s %s %s 16 %s,%s %s -' % (H(ks), hx(b'A'), hx(b'B'), b_, g, good_r(rng)), None)
+    # long RUNS of out-of-range candidates before a good one
+    for nbad in ((3, 64, 127, 128, 129, 300, 1000) if tier == 'thorough' else (3, 128, 129, 300)):
+        bads = [rng.choice(['ff' * 32, H(N), H(N + rng.randrange(1, 1 << 200)), '00' * 32, H(N - 1)]) for _ in range(nbad)]
+        yield ('sm9-long-run-of-bad-candidates', 's9_keygen %s %s,%s' % (rng.choice(['sign', 'enc', 'signfn', 'encfn']), ','.join(bads), good_r(rng)), None)
+        if nbad <= 300:
+            yield ('sm9-long-run-of-bad-candidates', 's9_exch %s %s %s 16 %s,%s %s -' % (H(ks), hx(b'A'), hx(b'B'), ','.join(bads), good_r(rng), good_r(rng)), None)
     # candidates limb-wise next to the order N (see gens_sm2.limb_neighbours)
     from .gens_sm2 import limb_neighbours
     for cand in limb_neighbours(N, rng, 81 if tier == 'thorough' else 27):
